@@ -18,49 +18,57 @@ theorem expected_infix (s : SState α β) (pods : List α) (ctrs : List β)
   · exact ((List.take_prefix _ _).isInfix).trans hp.isInfix
   · exact ((List.take_prefix _ _).isInfix).trans hk.isInfix
 
-/-- If the repaired loop gives up with "failed to synchronize plugin with split messages"
-    then it was refused a message of at most `m` objects, made of consecutive pods and
-    consecutive containers of the state. -/
+/-- If the repaired loop ends with "failed to synchronize plugin with split messages" then
+    either it was refused a message of at most `m` objects, made of consecutive pods and
+    consecutive containers of the state, or the plugin end answered a request with an error
+    carrying the status ResourceExhausted (which `recalcObjsPerSyncMsg` does not tell apart). -/
 theorem run_tooLarge (E : Env α β υ ε σ) (m : Nat) (hc : E.clamp = true)
     (hπ : Shrinks m E.policy) (hlim : 0 < E.limit) (pods : List α) (ctrs : List β) :
     ∀ fuel w s, Good s → s.podsLeft <:+ pods → s.ctrsLeft <:+ ctrs →
       (run E fuel w s).out = .failed .tooLarge →
-      ∃ c, c.pods <:+: pods ∧ c.ctrs <:+: ctrs ∧ c.count ≤ m ∧ E.limit < E.size c ∧
-        Ev.rejected c (E.size c) ∈ (run E fuel w s).evs := by
+      (∃ c, c.pods <:+: pods ∧ c.ctrs <:+: ctrs ∧ c.count ≤ m ∧ E.limit < E.size c ∧
+        Ev.rejected c (E.size c) ∈ (run E fuel w s).evs) ∨
+      (∃ c, Ev.errored c ∈ (run E fuel w s).evs) := by
   intro fuel w s hG
   revert hG
   apply run_induction E m hc hπ
     (fun fuel _ s r => s.podsLeft <:+ pods → s.ctrsLeft <:+ ctrs → r.out = .failed .tooLarge →
-      ∃ c, c.pods <:+: pods ∧ c.ctrs <:+: ctrs ∧ c.count ≤ m ∧ E.limit < E.size c ∧
-        Ev.rejected c (E.size c) ∈ r.evs)
+      (∃ c, c.pods <:+: pods ∧ c.ctrs <:+: ctrs ∧ c.count ≤ m ∧ E.limit < E.size c ∧
+        Ev.rejected c (E.size c) ∈ r.evs) ∨ (∃ c, Ev.errored c ∈ r.evs))
   · intro w s _ _ _ h; cases h
   · intro n w s w' evs o hG hs hp hk ho
     cases hs with
     | done w' r hm hfit hpeer => cases ho
     | noSplit w' r hm hfit hpeer hr => cases ho
-    | peerErr w' e hfit hpeer => cases ho
+    | peerErr w' e hfit hpeer => exact .inr ⟨expected s, by simp⟩
     | giveUp hlt hpol =>
-      refine ⟨expected s, (expected_infix s pods ctrs hp hk).1, (expected_infix s pods ctrs hp hk).2,
+      refine .inl ⟨expected s, (expected_infix s pods ctrs hp hk).1, (expected_infix s pods ctrs hp hk).2,
         ?_, hlt, by simp⟩
       rw [expected_count s hG]
       exact hπ.gives_up _ _ _ _ hlim hlt hpol
   · intro n w s w' evs s' r hG hs hG' _ _ ih hp hk ho
     cases hs with
     | advance w' r0 hm hfit hpeer hu hrm =>
-      obtain ⟨c, h1, h2, h3, h4, h5⟩ := ih ((List.drop_suffix _ _).trans hp) ((List.drop_suffix _ _).trans hk) ho
-      exact ⟨c, h1, h2, h3, h4, by simp [h5]⟩
+      rcases ih ((List.drop_suffix _ _).trans hp) ((List.drop_suffix _ _).trans hk) ho with
+        ⟨c, h1, h2, h3, h4, h5⟩ | ⟨c, h5⟩
+      · exact .inl ⟨c, h1, h2, h3, h4, by simp [h5]⟩
+      · exact .inr ⟨c, by simp [h5]⟩
     | shrink p k hlt hdec hg =>
-      obtain ⟨c, h1, h2, h3, h4, h5⟩ := ih hp hk ho
-      exact ⟨c, h1, h2, h3, h4, by simp [h5]⟩
+      rcases ih hp hk ho with ⟨c, h1, h2, h3, h4, h5⟩ | ⟨c, h5⟩
+      · exact .inl ⟨c, h1, h2, h3, h4, by simp [h5]⟩
+      · exact .inr ⟨c, by simp [h5]⟩
 
-/-! ## The loop composed with the stub -/
+/-! ## The loop composed with the stub behind the transport -/
 
-/-- what the runtime gets when the handler has been called with the whole state -/
-def deliveredOutcome (f : List α → List β → Except ε (List υ)) (pods : List α) (ctrs : List β) :
-    Outcome υ ε :=
+/-- what the runtime gets once the handler has been called with the whole state: its updates if
+    the reply fits, the deadline if the reply is too large and gets dropped, the handler's error
+    otherwise (reported with the "split messages" text when it carries ResourceExhausted) -/
+def wireOutcome (rs : Reply υ → Nat) (rl : Nat) (hx : ε → Bool)
+    (f : List α → List β → Except ε (List υ)) (pods : List α) (ctrs : List β) :
+    Outcome υ (WireErr ε) :=
   match f pods ctrs with
-  | .ok u => .done u
-  | .error e => .failed (.peer e)
+  | .ok u => if rs ⟨u, false⟩ ≤ rl then .done u else .failed (.peer .replyLost)
+  | .error e => .failed (if hx e then .tooLarge else .peer (.handler e))
 
 theorem stubRPC_more (f : List α → List β → Except ε (List υ)) (w : RState α β) (c : Chunk α β)
     (hm : c.more = true) :
@@ -75,67 +83,121 @@ theorem stubRPC_last (f : List α → List β → Except ε (List υ)) (w : RSta
        handlerReply f (accPods w ++ c.pods) (accCtrs w ++ c.ctrs)) := by
   simp [stubRPC, hm, deliverSync_eq]
 
-/-- The repaired sender against the real receiver: either it gives up (or runs out of fuel)
-    before the handler was ever called, or the handler was called exactly once with exactly
-    the supplied state and its answer is the sender's result. It never decides that the plugin
-    "does not handle split sync requests". -/
-theorem run_stub (E : Env α β υ ε (RState α β)) (m : Nat) (hc : E.clamp = true)
-    (hπ : Shrinks m E.policy) (f : List α → List β → Except ε (List υ))
-    (hpeer : E.peer = stubRPC (some f)) (pods : List α) (ctrs : List β) :
+theorem wireStub_more (rs : Reply υ → Nat) (rl : Nat) (hecho : rs ⟨[], true⟩ ≤ rl)
+    (f : List α → List β → Except ε (List υ)) (w : RState α β) (c : Chunk α β)
+    (hm : c.more = true) :
+    wireStub rs rl (some f) w c =
+      (⟨some (accPods w ++ c.pods, accCtrs w ++ c.ctrs), w.calls⟩, .ok ⟨[], true⟩) := by
+  simp [wireStub, stubRPC_more f w c hm, hecho]
+
+/-- the answer to the last chunk, as it arrives at the runtime -/
+def wireReply (rs : Reply υ → Nat) (rl : Nat) (f : List α → List β → Except ε (List υ))
+    (ps : List α) (cs : List β) : Except (WireErr ε) (Reply υ) :=
+  match f ps cs with
+  | .ok u => if rs ⟨u, false⟩ ≤ rl then .ok ⟨u, false⟩ else .error .replyLost
+  | .error e => .error (.handler e)
+
+theorem wireStub_last (rs : Reply υ → Nat) (rl : Nat)
+    (f : List α → List β → Except ε (List υ)) (w : RState α β) (c : Chunk α β)
+    (hm : c.more = false) :
+    wireStub rs rl (some f) w c =
+      (⟨none, w.calls ++ [(accPods w ++ c.pods, accCtrs w ++ c.ctrs)]⟩,
+       wireReply rs rl f (accPods w ++ c.pods) (accCtrs w ++ c.ctrs)) := by
+  simp only [wireStub, stubRPC_last f w c hm, handlerReply, wireReply]
+  cases f (accPods w ++ c.pods) (accCtrs w ++ c.ctrs) with
+  | error e => rfl
+  | ok u => simp only []; split <;> rfl
+
+/-- The repaired sender against the real receiver behind a transport that drops oversized
+    replies: either it gives up on its own before the handler was ever called (then a message of
+    at most `m` objects was refused) or runs out of fuel, or the handler was called exactly once
+    with exactly the supplied state and what the sender returns is `wireOutcome`. It never
+    decides that the plugin "does not handle split sync requests". -/
+theorem run_wire (E : Env α β υ (WireErr ε) (RState α β)) (m : Nat) (hc : E.clamp = true)
+    (hπ : Shrinks m E.policy) (hlim : 0 < E.limit) (rs : Reply υ → Nat) (rl : Nat)
+    (hecho : rs ⟨[], true⟩ ≤ rl) (hx : ε → Bool)
+    (f : List α → List β → Except ε (List υ))
+    (hpeer : E.peer = wireStub rs rl (some f)) (hex : E.exhausted = wireExhausted hx)
+    (pods : List α) (ctrs : List β) :
     ∀ fuel w s, Good s → w.calls = [] → accPods w ++ s.podsLeft = pods →
       accCtrs w ++ s.ctrsLeft = ctrs →
-      (((run E fuel w s).out = .failed .tooLarge ∨ (run E fuel w s).out = .outOfFuel) ∧
-          (run E fuel w s).world.calls = []) ∨
-      ((run E fuel w s).out = deliveredOutcome f pods ctrs ∧
+      ((run E fuel w s).out = .failed .tooLarge ∧ (run E fuel w s).world.calls = [] ∧
+        ∃ c : Chunk α β, c.pods <:+: pods ∧ c.ctrs <:+: ctrs ∧ c.count ≤ m ∧ E.limit < E.size c) ∨
+      ((run E fuel w s).out = .outOfFuel ∧ (run E fuel w s).world.calls = []) ∨
+      ((run E fuel w s).out = wireOutcome rs rl hx f pods ctrs ∧
           (run E fuel w s).world.calls = [(pods, ctrs)] ∧ (run E fuel w s).world.acc = none) := by
   intro fuel w s hG
   revert hG
   apply run_induction E m hc hπ
     (fun _ w s r => w.calls = [] → accPods w ++ s.podsLeft = pods →
       accCtrs w ++ s.ctrsLeft = ctrs →
-      ((r.out = .failed .tooLarge ∨ r.out = .outOfFuel) ∧ r.world.calls = []) ∨
-      (r.out = deliveredOutcome f pods ctrs ∧ r.world.calls = [(pods, ctrs)] ∧ r.world.acc = none))
-  · intro w s _ h1 _ _; exact .inl ⟨.inr rfl, h1⟩
+      (r.out = .failed .tooLarge ∧ r.world.calls = [] ∧
+        ∃ c : Chunk α β, c.pods <:+: pods ∧ c.ctrs <:+: ctrs ∧ c.count ≤ m ∧ E.limit < E.size c) ∨
+      (r.out = .outOfFuel ∧ r.world.calls = []) ∨
+      (r.out = wireOutcome rs rl hx f pods ctrs ∧ r.world.calls = [(pods, ctrs)] ∧ r.world.acc = none))
+  · intro w s _ h1 _ _; exact .inr (.inl ⟨rfl, h1⟩)
   · intro n w s w' evs o hG hs h1 h2 h3
     cases hs with
     | done w' r hm hfit hp =>
-      right
-      rw [hpeer, stubRPC_last f w _ hm, expected_more_false s hG hm] at hp
+      right; right
+      rw [hpeer, wireStub_last rs rl f w _ hm, expected_more_false s hG hm] at hp
       simp only [h2, h3, Prod.mk.injEq] at hp
       obtain ⟨hw, hr⟩ := hp
       subst hw
-      simp only [handlerReply] at hr
-      simp only [deliveredOutcome, h1, List.nil_append, and_true]
-      split at hr
-      · next u hu => simp only [Except.ok.injEq] at hr; subst hr; rw [hu]
-      · cases hr
+      simp only [wireReply] at hr
+      simp only [wireOutcome, h1, List.nil_append, and_true]
+      cases hf : f pods ctrs with
+      | error e => rw [hf] at hr; cases hr
+      | ok u =>
+        rw [hf] at hr
+        simp only at hr ⊢
+        split at hr
+        · next hle => simp only [Except.ok.injEq] at hr; subst hr; simp [hle]
+        · cases hr
     | noSplit w' r hm hfit hp hr =>
-      rw [hpeer, stubRPC_more f w _ hm] at hp
+      rw [hpeer, wireStub_more rs rl hecho f w _ hm] at hp
       simp only [Prod.mk.injEq, Except.ok.injEq] at hp
       obtain ⟨_, hr'⟩ := hp
       subst hr'
       simp at hr
     | peerErr w' e hfit hp =>
-      right
+      right; right
       cases hm : (expected s).more with
       | true =>
-        rw [hpeer, stubRPC_more f w _ hm] at hp
+        rw [hpeer, wireStub_more rs rl hecho f w _ hm] at hp
         simp at hp
       | false =>
-        rw [hpeer, stubRPC_last f w _ hm, expected_more_false s hG hm] at hp
+        rw [hpeer, wireStub_last rs rl f w _ hm, expected_more_false s hG hm] at hp
         simp only [h2, h3, Prod.mk.injEq] at hp
         obtain ⟨hw, hr⟩ := hp
         subst hw
-        simp only [handlerReply] at hr
-        simp only [deliveredOutcome, h1, List.nil_append, and_true]
-        split at hr
-        · cases hr
-        · next e' he => simp only [Except.error.injEq] at hr; subst hr; rw [he]
-    | giveUp hlt hpol => exact .inl ⟨.inl rfl, h1⟩
+        simp only [wireReply] at hr
+        simp only [wireOutcome, h1, List.nil_append, and_true, hex]
+        cases hf : f pods ctrs with
+        | error e' =>
+          rw [hf] at hr
+          simp only [Except.error.injEq] at hr
+          subst hr
+          simp only [wireExhausted]
+          by_cases hxe : hx e' = true <;> simp [hxe]
+        | ok u =>
+          rw [hf] at hr
+          simp only at hr ⊢
+          split at hr
+          · cases hr
+          · next hgt =>
+            simp only [Except.error.injEq] at hr
+            subst hr
+            simp [wireExhausted, hgt]
+    | giveUp hlt hpol =>
+      refine .inl ⟨rfl, h1, expected s, ?_, ?_, ?_, hlt⟩
+      · exact (expected_infix s pods ctrs ⟨accPods w, h2⟩ ⟨accCtrs w, h3⟩).1
+      · exact (expected_infix s pods ctrs ⟨accPods w, h2⟩ ⟨accCtrs w, h3⟩).2
+      · rw [expected_count s hG]; exact hπ.gives_up _ _ _ _ hlim hlt hpol
   · intro n w s w' evs s' r hG hs hG' _ _ ih h1 h2 h3
     cases hs with
     | advance w' r0 hm hfit hp hu hrm =>
-      rw [hpeer, stubRPC_more f w _ hm] at hp
+      rw [hpeer, wireStub_more rs rl hecho f w _ hm] at hp
       simp only [Prod.mk.injEq] at hp
       obtain ⟨hw, _⟩ := hp
       subst hw
@@ -148,40 +210,45 @@ theorem run_stub (E : Env α β υ ε (RState α β)) (m : Nat) (hc : E.clamp = 
 
 /-- The repaired sender against a plugin with no `Synchronize` handler: nothing is called,
     the result carries no updates. -/
-theorem run_noHandler (E : Env α β υ ε (RState α β)) (m : Nat) (hc : E.clamp = true)
-    (hπ : Shrinks m E.policy) (hpeer : E.peer = stubRPC (none : Handler α β υ ε)) :
+theorem run_noHandler (E : Env α β υ (WireErr ε) (RState α β)) (m : Nat) (hc : E.clamp = true)
+    (hπ : Shrinks m E.policy) (rs : Reply υ → Nat) (rl : Nat)
+    (hecho : ∀ b, rs ⟨[], b⟩ ≤ rl)
+    (hpeer : E.peer = wireStub rs rl (none : Handler α β υ ε)) :
     ∀ fuel w s, Good s →
       (run E fuel w s).world = w ∧
       ((run E fuel w s).out = .done [] ∨ (run E fuel w s).out = .failed .tooLarge ∨
         (run E fuel w s).out = .outOfFuel) := by
+  have hw : ∀ (w : RState α β) (c : Chunk α β),
+      wireStub rs rl (none : Handler α β υ ε) w c = (w, .ok ⟨[], c.more⟩) := by
+    intro w c; simp [wireStub, stubRPC, hecho]
   apply run_induction E m hc hπ
     (fun _ w _ r => r.world = w ∧ (r.out = .done [] ∨ r.out = .failed .tooLarge ∨ r.out = .outOfFuel))
   · intro w s _; exact ⟨rfl, .inr (.inr rfl)⟩
   · intro n w s w' evs o hG hs
     cases hs with
     | done w' r hm hfit hp =>
-      rw [hpeer] at hp
-      simp only [stubRPC, Prod.mk.injEq, Except.ok.injEq] at hp
-      obtain ⟨hw, hr⟩ := hp
-      subst hw hr
+      rw [hpeer, hw] at hp
+      simp only [Prod.mk.injEq, Except.ok.injEq] at hp
+      obtain ⟨hw', hr⟩ := hp
+      subst hw' hr
       exact ⟨rfl, .inl rfl⟩
     | noSplit w' r hm hfit hp hr =>
-      rw [hpeer] at hp
-      simp only [stubRPC, Prod.mk.injEq, Except.ok.injEq] at hp
+      rw [hpeer, hw] at hp
+      simp only [Prod.mk.injEq, Except.ok.injEq] at hp
       obtain ⟨_, hr'⟩ := hp
       subst hr'
       simp [hm] at hr
     | peerErr w' e hfit hp =>
-      rw [hpeer] at hp
-      simp [stubRPC] at hp
+      rw [hpeer, hw] at hp
+      simp at hp
     | giveUp hlt hpol => exact ⟨rfl, .inr (.inl rfl)⟩
   · intro n w s w' evs s' r hG hs hG' _ _ ih
     cases hs with
     | advance w' r0 hm hfit hp hu hrm =>
-      rw [hpeer] at hp
-      simp only [stubRPC, Prod.mk.injEq] at hp
-      obtain ⟨hw, _⟩ := hp
-      subst hw
+      rw [hpeer, hw] at hp
+      simp only [Prod.mk.injEq] at hp
+      obtain ⟨hw', _⟩ := hp
+      subst hw'
       exact ih
     | shrink p k hlt hdec hg => exact ih
 
